@@ -369,7 +369,14 @@ func main() {
 	}
 	rc := &runCtx{sh: sh, prog: prog, hf: harnessFiles, workers: *workers, solverBin: *solverBin, timeout: *timeout, logSMT: *logSMT, verbose: *verbose, prop: *prop, known: known, validate: *validateN, seed: seed}
 	results := rc.explore(sel)
+	// the registered check (against /repo, writing evidence) owns replay/<prop>; scratch-worktree and
+	// debugging runs get a directory of their own so that concurrent runs do not clobber each other
 	replayDir := filepath.Join(verifDir, "replay", *prop)
+	if repoDir != "/repo" {
+		replayDir += "." + filepath.Base(repoDir)
+	} else if *noEvidence {
+		replayDir += fmt.Sprintf(".dbg%d", os.Getpid())
+	}
 	os.RemoveAll(replayDir)
 	oc := rc.judge(sel, results, replayDir)
 	// second pass: harnesses run under an over-approximating abstraction whose counterexample did not
